@@ -3,6 +3,8 @@ import WhVerif.Spec.C13
 import WhVerif.Lemmas.C13
 import WhVerif.Model.C13Header
 import WhVerif.Lemmas.C13Header
+import WhVerif.Spec.C13Edit
+import WhVerif.Lemmas.C13Edit
 /-!
 # C13 — unphase accepts every VCF, removes all phase information and nothing else
 
@@ -308,5 +310,20 @@ theorem file_unphase_phase_eq_unphase (f f' : VcfFile) (hr : PhaseOnlyEdit f.rec
     (hh : f'.header.filter keepLine = f.header.filter keepLine) : unphaseFileFix f' = unphaseFileFix f := by
   simp only [unphaseFileFix, unphase_phase_eq_unphase hr, header_phase_only_edit _ _ hh]
 
+
+/-! ## the executable edit checker used by the check (`Spec/C13Edit.lean`) -/
+
+/-- **edit_checker_iff**: `editB` decides the phase-only-edit relation (permute the alleles of fully present genotypes,
+set separators at will, add / change / delete HP, PQ, PS — nothing else). -/
+theorem edit_checker_iff (v v' : List Record) : editB v v' = true ↔ PhaseOnlyEdit v v' := editB_iff v v'
+
+/-- **unphase_of_checked_edit**: whatever the check's generator does to a file, if the checker accepts the pair then both
+files unphase to the same records — this is the statement the check evaluates on the real `whatshap unphase` for calls of
+every ploidy (the histories through `whatshap phase` only reach diploid calls). -/
+theorem unphase_of_checked_edit (v v' : List Record) (h : editB v v' = true) : unphase v' = unphase v :=
+  unphase_phase_eq_unphase ((editB_iff v v').mp h)
+
+example : editB [⟨["chr1"], [⟨some ⟨[some 0, some 1, some 1], false⟩, [("DP", "3")]⟩]⟩]
+    [⟨["chr1"], [⟨some ⟨[some 1, some 0, some 1], true⟩, [("PS", "7"), ("DP", "3")]⟩]⟩] = true := by decide
 
 end WhVerif.Props.C13
